@@ -185,53 +185,27 @@ Fixpoint big_chain_from (x : Z) (n : nat) : list Z :=
 Definition big_chain (seed : Z) (n : nat) : list Z := big_chain_from (seed mod big_M)%Z n.
 Definition zhash (l : list Z) : Z := fold_left (fun h v => ((h * 1000003 + v) mod (2 ^ 61 - 1))%Z) l 0%Z.
 
-(* merge sort (fuel = length), used only to evaluate order statistics of long chains quickly; the percentile of the
-   model is DEFINED with the insertion sort above, and Proofs/C19_Percentile.v shows that any sorted permutation
-   gives the same value (percentile_order_statistics); check_big compares the two sorts on every case *)
-Fixpoint merge (a : list Z) : list Z -> list Z :=
-  match a with
-  | [] => fun b => b
-  | x :: a' => fix merge_b (b : list Z) : list Z :=
-      match b with
-      | [] => a
-      | y :: b' => if (x <=? y)%Z then x :: merge a' b else y :: merge_b b'
-      end
-  end.
-Fixpoint split_half (l : list Z) : list Z * list Z :=
-  match l with
-  | x :: y :: r => let (a, b) := split_half r in (x :: a, y :: b)
-  | _ => (l, [])
-  end.
-Fixpoint msort_fuel (fuel : nat) (l : list Z) : list Z :=
-  match fuel with
-  | O => l
-  | S f => match l with
-           | [] | [_] => l
-           | _ => let (a, b) := split_half l in merge (msort_fuel f a) (msort_fuel f b)
-           end
-  end.
-Definition msort (l : list Z) : list Z := msort_fuel (length l) l.
-Fixpoint sortedb (l : list Z) : bool :=
-  match l with x :: ((y :: _) as r) => (x <=? y)%Z && sortedb r | _ => true end.
-
+(* percentile on an already sorted chain: percentile l pn pd = percentile_on (isort l) (zlen l) pn pd by
+   unfolding; lets check_big sort each long chain once *)
 Definition percentile_on (s : list Z) (n : Z) (pn : Z) (pd : positive) : Q :=
   let B := (100 * Z.pos pd)%Z in inject_Z (interpZ s B (pn * (n - 1))) / inject_Z B.
+
+(* variance through integer sums (equal to `variance`: Proofs/C19_Percentile.v, variance_fast_eq); the Q-sum of
+   squared deviations has unreduced denominators growing with the chain and is unusable for thousands of draws *)
+Definition variance_fast (l : list Z) : Q :=
+  inject_Z (zlen l * zsum (map (fun x => x * x)%Z l) - zsum l * zsum l) / inject_Z (zlen l * zlen l).
 
 Definition check_big (seeds : list Z) (ns nb nt : nat) (o_len : nat) (o_hash : list Z)
            (o_mean o_var o_median o_stdsq : list Q) (cn : Z) (cd : positive) (o_lo o_hi : list Q) (intact : bool) : bool :=
   let rows := map (fun sd => big_chain sd ns) seeds in
-  let sorted := map msort rows in
+  let sorted := map isort rows in
   let n := Z.of_nat ns in
-  forallb sortedb sorted &&
-  list_eqb Nat.eqb (map (@length Z) sorted) (map (fun _ => ns) seeds) &&
-  list_eqb Z.eqb (map zsum sorted) (map zsum rows) &&                       (* cheap necessary conditions of "permutation" *)
-  (match rows with r :: _ => if (ns <=? 1200)%nat then zl_eqb (isort r) (msort r) else true | [] => false end) &&
   list_eqb (opt_eqb (fun a b => Nat.eqb (fst a) (fst b) && Z.eqb (snd a) (snd b)))
            (map (fun r => match burnthin nb nt r with Some c => Some (length c, zhash c) | None => None end) rows)
            (map (fun h => Some (o_len, h)) o_hash) &&
   ql_close tol9 o_mean (map mean rows) &&
-  ql_close tol9 o_var (map variance rows) &&
-  ql_close tol9 o_stdsq (map variance rows) &&
+  ql_close tol9 o_var (map variance_fast rows) &&
+  ql_close tol9 o_stdsq (map variance_fast rows) &&
   ql_close tol9 o_median (map (fun s => percentile_on s n 50 1) sorted) &&
   ql_close tol9 o_lo (map (fun s => percentile_on s n (100 * Z.pos cd - cn) (2 * cd)) sorted) &&
   ql_close tol9 o_hi (map (fun s => percentile_on s n (100 * Z.pos cd + cn) (2 * cd)) sorted) &&
